@@ -1,5 +1,6 @@
 // c01: lookup correspondence for the routing core. Streams (prop=):
-//   C01 direct selection + params, C08 trailing-slash selection, C09 hostname matching.
+//
+//	C01 direct selection + params, C08 trailing-slash selection, C09 hostname matching.
 package main
 
 import (
@@ -71,6 +72,25 @@ func main() {
 			st.Count("set:fanout")
 			npat = 0
 		}
+		var targets []string
+		if si%3 == 1 {
+			// overlap stream: nested backtracking with parameters captured before each backtrack
+			ov, target := rt.OverlapSet(rnd, rnd.Range(4, 12))
+			hostMode := prop == "C09" || rnd.Pct(35)
+			for _, p := range ov {
+				if hostMode && rnd.Pct(65) {
+					// several hostname variants of the same host shape in one set: static label first,
+					// then label parameters, so the host walk itself backtracks
+					p = hx.Pick(rnd, []string{"a.b", "{h}.b", "a.{h}", "{g}.{h}", "a.b", "a.{h}"}) + p
+				}
+				if _, err := f.Handle(methods[0], p, rt.Noop); err == nil {
+					pats = append(pats, p)
+				}
+			}
+			targets = []string{target}
+			st.Count("set:overlap")
+			npat = 0
+		}
 		for i := 0; i < npat; i++ {
 			p := rt.Pattern(rnd, setHostPct)
 			m := hx.Pick(rnd, methods)
@@ -88,7 +108,19 @@ func main() {
 			var host, path string
 			base := hx.Pick(rnd, pats)
 			kind := "derived"
-			if rnd.Pct(8) {
+			if len(targets) > 0 && rnd.Pct(40) {
+				kind = "overlap-target"
+				path = targets[0]
+				host = hx.Pick(rnd, []string{"", "a.b", "a.b", "x.b", "a.y", "x.y"})
+				if rnd.Pct(35) {
+					// a prefix of the target, cut at a segment boundary
+					segs := strings.Split(strings.TrimPrefix(path, "/"), "/")
+					path = "/" + strings.Join(segs[:rnd.Range(1, len(segs))], "/")
+				}
+				if rnd.Pct(30) {
+					path = rt.PerturbPath(rnd, path)
+				}
+			} else if rnd.Pct(8) {
 				kind = "free"
 				n := rnd.Range(1, 4)
 				for i := 0; i < n; i++ {
@@ -129,6 +161,9 @@ func main() {
 				path = "/"
 			}
 			method := hx.Pick(rnd, methods)
+			if kind == "overlap-target" {
+				method = methods[0]
+			}
 			key := def + "|" + method + "|" + host + "|" + path
 			if seen[key] {
 				continue
